@@ -21,6 +21,7 @@ package originium
 
 import (
 	"container/list"
+	"os"
 	"time"
 
 	"github.com/B1NARY-GR0UP/originium/pkg/logger"
@@ -131,7 +132,7 @@ func (lm *levelManager) verifTables() []VerifTable {
 	for level, tables := range lm.levels {
 		for e := tables.Front(); e != nil; e = e.Next() {
 			th := e.Value.(tableHandle)
-			data := lm.fetch(level, th.levelIdx, th.dataBlockIndex.DataBlock)
+			data := verifReadBlock(lm.fileName(level, th.levelIdx), th.dataBlockIndex.DataBlock)
 			res = append(res, VerifTable{
 				Level:   level,
 				Idx:     th.levelIdx,
@@ -142,6 +143,23 @@ func (lm *levelManager) verifTables() []VerifTable {
 		}
 	}
 	return res
+}
+
+// verifReadBlock reads and decodes a block straight from the file: an observation must not go through the engine's own
+// read path (whatever that path remembers between calls would be refreshed by the observation)
+func verifReadBlock(name string, handle table.BlockHandle) table.Data {
+	raw, err := os.ReadFile(name)
+	if err != nil {
+		panic(err)
+	}
+	if handle.Offset+handle.Length > uint64(len(raw)) {
+		panic("verif: block handle beyond the end of " + name)
+	}
+	var data table.Data
+	if err = data.Decode(raw[handle.Offset : handle.Offset+handle.Length]); err != nil {
+		panic(err)
+	}
+	return data
 }
 
 // VerifLevels a level manager over a directory with a chosen discard watermark, without memtables and without a flusher
